@@ -23,7 +23,7 @@ EXPLANATION = ("PARTIAL.  Decided by symbolic execution of the real approximate_
 STUBS = ["numpy.random.random = arbitrary reals in [0,1) (contract stub)", "log2 = uninterpreted function (only its argument is compared)"]
 ASSUMPTIONS = ["binary64 arithmetic is modelled by exact reals in the (bound) and (regular) runs; in (regular) every intermediate value is a small "
                "integer or a ratio equal to 1, hence exact in binary64 as well", "lifting the one-step invariant to all iterations is the usual induction (written)"]
-BUDGET_S = {"quick": 900, "thorough": 3600}
+BUDGET_S = {"quick": 900, "thorough": 1500}
 
 KF_WITNESS = [[0, -1, 2, 3], [0, 1, 2, 3], [-1, 1, 2, 3], [0, 1, 2, 3]]
 
